@@ -359,18 +359,29 @@ Definition run (c : cfg) (s : st) (h : list op) : st := fold_left (fun s x => fs
    The signing context takes the required signer from the wrapper's bridger_address
    (option (cosmos.msg.v1.signer) = "bridger_address" on MsgClaim); MsgServer.Claim counts
    the vote for claim.GetClaimer(), the bridger_address of the wrapped claim.
-   MsgClaim.ValidateBasic: chain name known, claim non-nil and an ExternalClaim, claim.ValidateBasic() —
-   it does not relate the two addresses. *)
+   MsgClaim.ValidateBasic: chain name known, claim non-nil, the Any's cached value is an
+   ExternalClaim, claim.ValidateBasic() — it does not relate the two addresses.
+   Two facts of the code are kept as explicit switches so that the theorems can speak about
+   the code with and without them:
+     unpacked : the wrapped Any carries its decoded value when ValidateBasic / the handler look at it
+                (true for a message built in memory; for a transaction decoded from bytes only if
+                MsgClaim implements UnpackInterfaces — it does not in the tree this was written for);
+     chk      : ValidateBasic (or the handler) compares wrapper and wrapped bridger (absent in that tree). *)
 Record claim_tx := { t_wrapper : Z;       (* MsgClaim.bridger_address *)
                      t_inner : Z;         (* wrapped claim's bridger_address *)
                      t_inner_valid : bool;(* claim.ValidateBasic() *)
                      t_nonce : Z; t_cls : Z; t_park : bool; t_members : list Z }.
 
 Definition required_signer (t : claim_tx) : Z := t_wrapper t.
-Definition validate_basic (t : claim_tx) : bool := t_inner_valid t.
+Definition validate_basic (unpacked chk : bool) (t : claim_tx) : bool :=
+  unpacked && t_inner_valid t && (negb chk || (t_wrapper t =? t_inner t)).
 Definition E_Unauthorized := 10.
 
-Definition deliver_claim (s : st) (signers : list Z) (t : claim_tx) : st * res :=
-  if negb (validate_basic t) then (s, Err E_Invalid)
+Definition deliver_claim (unpacked chk : bool) (s : st) (signers : list Z) (t : claim_tx) : st * res :=
+  if negb (validate_basic unpacked chk t) then (s, Err E_Invalid)
   else if negb (zmem (required_signer t) signers) then (s, Err E_Unauthorized)
   else vote s (t_inner t) (t_nonce t) (t_cls t) (t_park t) (t_members t).
+
+(* the code as it is *)
+Definition deliver_claim_mem := deliver_claim true false.     (* message object with its value present *)
+Definition deliver_claim_bytes := deliver_claim false false.  (* transaction decoded from bytes *)
